@@ -23,7 +23,8 @@ import IgrisModel.Common.Proto
 namespace Igris.C08
 open Igris.Proto
 
-abbrev Ptr := Nat
+/-- addresses are natural numbers; NULL is 0 resp. `none` -/
+notation "Ptr" => Nat
 abbrev Mem := Ptr → Option Byte
 
 /-- `*a` as an rvalue -/
